@@ -14,7 +14,7 @@ import (
 
 func c14Tier(tier string) (push, seqs int) {
 	if tier == "thorough" {
-		return 700000, 300000
+		return 7000000, 3000000
 	}
 	return 140000, 60000
 }
